@@ -249,7 +249,15 @@ func (w *World) open(label string) {
 	if w.NoFile {
 		st, err = gkvlite.NewStoreEx(nil, w.callbacks())
 	} else {
+		if w.Mon.Lazy {
+			w.File.Log = w.File.Log[:0]
+			w.File.LogOn = true
+		}
 		st, err = gkvlite.NewStoreEx(w.File, w.callbacks())
+		if w.Mon.Lazy {
+			w.File.LogOn = false
+			w.checkLazyOpen(label, st)
+		}
 	}
 	if err != nil || st == nil {
 		w.Fail("model", "open-failed", "%s failed: %v", label, err)
@@ -622,24 +630,38 @@ func (w *World) checkFormat(log []IOCall, before, after int64) {
 			}
 		}
 	}
-	// every write of the flush is an item header+key, a value, a 52-byte node or the root record
+	// the region appended by this Flush is tiled exactly by item records and
+	// node records reachable from the new root, followed by the root record
 	if Instrumented && w.Mon.Tiling {
-		for i := 0; i < len(log); i++ {
-			c := log[i]
-			if c.Op != "W" || c.Len == 0 {
-				continue
-			}
-			end := c.Off + int64(c.Len)
-			switch {
-			case end == after && c.Off == r.Off:
-			case c.Len == 52:
-			default:
-				// item header + key, followed by value write(s)
-				if c.Len < 16 {
-					// second half of a chunked value write
-					continue
+		type rec struct{ off, n int64 }
+		seen := map[int64]bool{}
+		var recs []rec
+		for _, c := range r.Colls {
+			for _, it := range c.Items {
+				if it.Off >= before && !seen[it.Off] && it.Len > 0 {
+					seen[it.Off] = true
+					recs = append(recs, rec{it.Off, int64(it.Len)})
 				}
 			}
+			for _, nd := range c.Nodes {
+				if nd.Off >= before && !seen[nd.Off] {
+					seen[nd.Off] = true
+					recs = append(recs, rec{nd.Off, 52})
+				}
+			}
+		}
+		recs = append(recs, rec{r.Off, r.End - r.Off})
+		sort.Slice(recs, func(i, j int) bool { return recs[i].off < recs[j].off })
+		pos := before
+		for _, x := range recs {
+			if x.off != pos {
+				w.Fail("format", "flush-region-not-tiled", "the bytes appended by Flush [%d,%d) are not exactly the item, node and root records reachable from the new root: expected a record at %d, next one is at %d", before, after, pos, x.off)
+				break
+			}
+			pos += x.n
+		}
+		if pos != after && len(w.Viols) == 0 {
+			w.Fail("format", "flush-region-not-tiled", "records reachable from the new root end at %d, the store size is %d", pos, after)
 		}
 	}
 }
@@ -760,6 +782,14 @@ func (w *World) Revert() {
 		return
 	}
 	w.M.Revert()
+	// The README documents that FlushRevert of the original invalidates open
+	// snapshots (the file is truncated below them): their contents are no
+	// longer specified, they can only be closed.
+	for _, sn := range w.Snaps {
+		if !sn.Closed {
+			sn.Reverted = true
+		}
+	}
 	want := w.M.Durable().End
 	if int64(len(w.File.Data)) != want {
 		w.Fail("revert", "file-length", "after FlushRevert the file is %d bytes long, expected %d (end of the previous flush's root record)", len(w.File.Data), want)
@@ -1201,4 +1231,31 @@ func (w *World) VisitNested(name string, innerName string, inner func()) {
 		w.Fail("nested", "visit-sequence", "%s delivered %q (bad item %v), the version pinned at its start has %q", label, got, bad, want)
 	}
 	w.logf("%s=%q", label, got)
+}
+
+// checkLazyOpen: opening a file that ends in a root record issues Stat plus
+// reads that lie entirely inside that record, and caches no node and no item.
+func (w *World) checkLazyOpen(label string, st *gkvlite.Store) {
+	data := w.File.Data
+	r := FindLastRoot(data, int64(len(data)))
+	if r == nil || r.End != int64(len(data)) || st == nil {
+		return
+	}
+	for _, c := range w.File.Log {
+		if c.Op == "R" && c.Len > 0 && (c.Off < r.Off || c.Off+int64(c.Len) > r.End) {
+			w.Fail("lazy", "open-read-outside-root", "%s read [%d,%d) outside the last root record [%d,%d)", label, c.Off, c.Off+int64(c.Len), r.Off, r.End)
+			return
+		}
+		if c.Op == "W" || c.Op == "T" {
+			w.Fail("lazy", "open-wrote", "%s issued %s", label, c.Op)
+		}
+	}
+	if Instrumented {
+		for _, n := range st.GetCollectionNames() {
+			if ns := Walk(st.GetCollection(n)); len(ns) > 0 {
+				w.Fail("lazy", "open-loaded-nodes", "%s left %d nodes of collection %q cached", label, len(ns), n)
+				return
+			}
+		}
+	}
 }
